@@ -145,6 +145,32 @@ CHECKS = {
              "after a success leaves file and .license sibling byte-identical and that the requested notice occurs once.",
         note="The linter's view is taken from `reuse lint --json` and the tool's own reader (contributors); requests are concretised from small pools; files that the linter never lists (excluded names, files left empty) are outside the domain. --no-replace is by definition additive and excluded from the re-run clause.",
         ref="5/C10"),
+    "C09": dict(
+        technique="TLA+ state machine of annotate (Annotate.tla: action property Monotone over all histories, with failing "
+                  "subsets) model-checked by TLC; TLC-generated and -simulated histories of option bundles replayed step by "
+                  "step into the real command; the trace specification carries the running model (each step is judged "
+                  "against the linter's view recorded before it)",
+        text="All histories of up to 2 (quick) / 3 (thorough) bundles over holders, licences, contributors, prefixes, year "
+             "forms, --merge-copyrights and --skip-existing, plus TLC-simulated longer ones, on ten comment styles x seven "
+             "initial contents x LF/CRLF/CR with seeded --multi-line / --no-replace / template flavours: after every step "
+             "that changed the file TLC checks that nothing declared before was dropped and the request was added; under "
+             "--merge-copyrights that all holders remain and every year stated before is still covered.",
+        note="The linter's view is taken from `reuse lint --json` and the tool's own reader (contributors); requests are concretised from small pools. .license-redirecting options are outside the histories (a sibling shadows the file by "
+             "specification).",
+        ref="5/C09"),
+    "C11": dict(
+        technique="Annotate.tla with failing subsets (FailedUntouched, ExitReflectsFailure) model-checked by TLC; every "
+                  "(file set, failing subset) of one invocation generated by TLC and given concrete failure classes, usage "
+                  "errors and .license options; tree snapshots; TLC trace validation (Trace_Annotate C11 clauses)",
+        text="For every subset of failing files in an invocation over up to three files (both argument orders, all "
+             ".license options), for information-dropping templates (plain and pre-commented), documented usage errors "
+             "(mutually exclusive options, unsupported or mixed line modes, missing template, nothing requested) and unknown "
+             "file types at every position, TLC checks: a file that did not end up complete is byte-identical and has no new "
+             "sibling, files without a reason to fail are complete, exit status 0 iff nothing failed, usage errors give "
+             "exit 2 with an untouched tree, lossy templates are refused.",
+        note="The linter's view is taken from `reuse lint --json` and the tool's own reader (contributors); requests are concretised from small pools. Which command lines are usage errors / which templates cannot yield a valid header is "
+             "stated by the generator from the documentation.",
+        ref="5/C11"),
     "C03": dict(
         technique="TLA+ requirement CoverReq (three-valued: must / must not / unpinned) vs walk-with-pruning mechanism "
                   "model-checked by TLC; TLC-enumerated directory-context x name-class x type x VCS-wish nodes built as "
